@@ -72,6 +72,15 @@ def closures(ctx, db, rid_='C11.closure-owns-waiter', rid2_='C11.run-once'):
     T = Tracer(db, depth=0)
     for f, e in sites:
         lamdefs = {x['fn_key']: x for x in f.events() if x.k == 'lambda'}
+        # the enqueuing code may itself be a closure of the function that defines the deleter (a helper lambda extracted from a loop body)
+        g_ = f
+        for _ in range(3):
+            g_ = db.get(g_.get('parent_key')) if g_ is not None and g_.get('lambda') and g_.get('parent_key') else None
+            if g_ is None:
+                break
+            for x in g_.events():
+                if x.k == 'lambda':
+                    lamdefs.setdefault(x['fn_key'], x)
         for c in e.get('captures', []):
             t = (c.get('type') or '') + ' | ' + (c.get('canon_type') or '')
             if not WAITER.search(t):
